@@ -197,6 +197,16 @@ def c03_chain(ci: int, n: int, k0: int, k1: int, k2: int, ti: int, as_list: bool
     return fin(ok)
 
 
+def c03_strict_backslash_before_placeholder() -> bool:
+    """Witness form for known finding c03-expand-unescapes-twice: an escaped backslash followed by a placeholder."""
+    from sigma.rule.detection import SigmaDetectionItem
+    from sigma.types import Placeholder
+
+    it = SigmaDetectionItem.from_mapping("f|expand", "C:\\\\%user%")  # YAML text C:\\%user% : literal backslash, placeholder
+    parts = it.value[0].s
+    return any(isinstance(p, Placeholder) for p in parts) and any(isinstance(p, str) and p.endswith("\\") for p in parts)
+
+
 def c03_concrete(chain: str, plain_repr: str, field: str) -> bool:
     import ast
 
